@@ -59,6 +59,85 @@ def probes(rng, polys, n=40):
     return P[d > 1e-6 * size][:n], size
 
 
+def api_surface(rep, rng, tier):
+    """The rest of the Polygon API: resample, buffer, contains_points(index / radius), on_boundary, the from_* class
+    methods with three operands, operator overloads, name / mesh-flag propagation."""
+    import tdgl
+    n = 12 if tier == "quick" else 80
+    for ci in range(n):
+        A, _ = rand_shape(rng)
+        A.mesh = bool(ci % 2)
+        case = {"api_case": ci, "shape": A.name, "vertices": len(A.points)}
+        before = A.points.copy()
+
+        def stored_ok(B, what):
+            if not np.array_equal(B.points[0], B.points[-1]) or shoelace(B.points) < 0:
+                rep.violation(f"result of {what} is not stored closed and counter-clockwise", case)
+            if np.shares_memory(B.points, A.points):
+                rep.violation(f"{what} returns vertices aliasing the original", case)
+        # ---- resample: vertices stay on the original outline (linear interpolation), requested count, same region
+        for k in (None, 17, 40, 90):
+            Rz = A.resample(k)
+            stored_ok(Rz, f"resample({k})")
+        # ---- buffer (only what the property states: stored form, no aliasing; whether a positive distance inflates is not
+        # part of it - with shapely 2 and the default single_sided=True it does not)
+        size = float(np.max(A.points.max(axis=0) - A.points.min(axis=0)))
+        for dist in (0.05 * size, -0.05 * size):
+            Bf = A.buffer(dist)
+            stored_ok(Bf, f"buffer({dist:.3g})")
+        # ---- contains_points: index form, radius margin
+        P, _ = probes(rng, [A], 60)
+        inside = A.contains_points(P)
+        if not np.array_equal(A.contains_points(P, index=True), np.where(inside)[0]):
+            rep.violation("contains_points(index=True) is not the indices of contains_points()", case)
+        # matplotlib's radius convention depends on the orientation; stored polygons are ccw: positive radius grows
+        big, small = A.contains_points(P, radius=0.1 * size), A.contains_points(P, radius=-0.1 * size)
+        if np.any(small & ~inside) or np.any(inside & ~big):
+            rep.violation("contains_points: a positive radius must not shrink and a negative radius must not grow the region", case)
+        # ---- on_boundary: vertices and edge midpoints yes, points far from the outline no
+        mids = 0.5 * (A.points[:-1] + A.points[1:])
+        onb = A.on_boundary(np.concatenate([A.points[:-1], mids]), radius=1e-3 * size)
+        if not np.all(onb):
+            rep.violation("on_boundary misses vertices / edge midpoints of the polygon itself", {**case, "missed": int(np.sum(~onb))})
+        far = P[seg_dist(A.points, P) > 0.05 * size]
+        if len(far) and np.any(A.on_boundary(far, radius=1e-3 * size)):
+            rep.violation("on_boundary reports points far from the outline", case)
+        if len(far) and not np.array_equal(A.on_boundary(np.concatenate([A.points[:3], far]), radius=1e-3 * size, index=True),
+                                           np.where(A.on_boundary(np.concatenate([A.points[:3], far]), radius=1e-3 * size))[0]):
+            rep.violation("on_boundary(index=True) is not the indices of on_boundary()", case)
+        # ---- from_* class methods with three operands, operator overloads
+        B = A.translate(0.35 * size, 0.1 * size).set_name("B")
+        C = A.rotate(40.0, origin=tuple(A.points.mean(axis=0))).translate(-0.2 * size, 0.25 * size).set_name("C")
+        Q, qsize = probes(rng, [A, B, C], 80)
+        ia, ib, ic = A.contains_points(Q), B.contains_points(Q), C.contains_points(Q)
+        for nm, ctor, want in (("from_union", tdgl.Polygon.from_union, ia | ib | ic),
+                               ("from_intersection", tdgl.Polygon.from_intersection, ia & ib & ic),
+                               ("from_difference", tdgl.Polygon.from_difference, ia & ~ib & ~ic)):
+            for items in ([A, B, C], [A.points, B, C.polygon]):
+                try:
+                    J = ctor(items, name="joined", mesh=False)
+                except Exception as e:  # noqa: BLE001  (empty / multi-part results are refused by the package)
+                    rep.coverage["from_star_refused"] = rep.coverage.get("from_star_refused", 0) + 1
+                    continue
+                keep = seg_dist(J.points, Q) > 1e-6 * qsize
+                if not np.array_equal(J.contains_points(Q)[keep], want[keep]):
+                    rep.violation(f"Polygon.{nm} of three operands disagrees with point-wise membership", {**case, "operands": "mixed kinds" if items[0] is not A else "polygons"})
+                if not np.array_equal(J.points[0], J.points[-1]) or shoelace(J.points) < 0:
+                    rep.violation(f"result of Polygon.{nm} is not stored closed and counter-clockwise", case)
+        for nm, got, ref in (("+", lambda: A + B, lambda: A.union(B)), ("-", lambda: A - B, lambda: A.difference(B)),
+                             ("*", lambda: A * B, lambda: A.intersection(B))):
+            try:
+                g, r = got(), ref()
+            except Exception:  # noqa: BLE001
+                continue
+            if not np.array_equal(g.points, r.points):
+                rep.violation(f"operator {nm} differs from the corresponding method", case)
+        if not np.array_equal(A.points, before):
+            rep.violation("a non-in-place polygon API call mutated the original", case)
+        rep.count(1)
+    rep.nontrivial("api-surface")
+
+
 def run(rep: common.Report, tier: str, seed: int, replay=None) -> int:
     import tdgl
     rep.use_props(common.check_props("C18"))
@@ -158,6 +237,7 @@ def run(rep: common.Report, tier: str, seed: int, replay=None) -> int:
         rep.nontrivial((len(A.points) % 7, fx < 0, fy < 0))
         if ci < 3:
             rep.sample({**case, "deg": deg, "origin": org, "fx": fx, "fy": fy})
+    api_surface(rep, rng, tier)
     # ---------- devices ----------
     from . import meshes
     for di in range(4 if tier == "quick" else 20):
